@@ -47,13 +47,28 @@ ProposalOK(A, i, rec) ==
                  LoggedProp(rec) \in Proposals(ApplyProv(P, o, pv), o, rem, pv, P.procs[pid])
        ELSE TRUE
 
-(* external calls of the Cluster API driver (spec/ClusterAPI.tla) *)
+(* harness set-up of the buffer histories: a fully ingested observation is  *)
+(* placed in one tier (refused when it does not fit or is already resident)  *)
+StoreOutcomes(A, o, inHot) ==
+    LET size == ObsVol(o)
+        free == IF inHot THEN A.buf.hotFree ELSE A.buf.coldFree
+    IN IF free - size < 0 \/ A.obs[o].data > 0 THEN {Out(A, "Refused")}
+       ELSE {Out([A EXCEPT !.obs[o].data = size, !.obs[o].status = "FINISHED",
+                           !.buf.hotFree = IF inHot THEN @ - size ELSE @,
+                           !.buf.coldFree = IF inHot THEN @ ELSE @ - size,
+                           !.buf.hotStored = IF inHot THEN Append(@, o) ELSE @,
+                           !.buf.coldStored = IF inHot THEN @ ELSE Append(@, o)], "")}
+(* external calls of the API drivers (spec/ClusterAPI.tla, buffer moves) *)
 CallOutcomes(A, c) ==
     CASE c.op = "Tick" -> {Out(A, "")}
       [] c.op = "ProvBatch" -> ProvBatchOutcomes(A, c.size, c.o)
       [] c.op = "Release" -> ReleaseOutcomes(A, c.o)
       [] c.op = "ProvIngest" -> SpawnPIOutcomes(A, c.o)
       [] c.op = "Alloc" -> SpawnTPOutcomes(A, <<c.o, c.k>>, c.m)
+      [] c.op = "StoreHot" -> StoreOutcomes(A, c.o, TRUE)
+      [] c.op = "StoreCold" -> StoreOutcomes(A, c.o, FALSE)
+      [] c.op = "H2C" -> {Out(Spawn([A EXCEPT !.nmove = @ + 1], H2cPid(A.nmove + 1), Loc0), "")}
+      [] c.op = "C2H" -> {Out(Spawn([A EXCEPT !.nmove = @ + 1], C2hPid(A.nmove + 1), Loc0), "")}
       [] OTHER -> {}
 StepOK(A, B, rec) ==
     IF rec.lab.kind = "CALL"
@@ -102,7 +117,7 @@ EndChecks(tr, i) ==
     LET e == tr.end
         X == Abs(e.st)
     IN /\ Report(cfg.alg = "adv" \/ tr.cfg.api \/ (e.exc.type = "" /\ ~e.budget), "L1", i, "C05.completes")
-       /\ Report(cfg.alg = "adv" \/ e.budget \/ e.t <= SerialBound * K, "L1", i, "C05.bound")
+       /\ Report(cfg.alg = "adv" \/ tr.cfg.api \/ e.budget \/ e.t <= SerialBound * K, "L1", i, "C05.bound")
        /\ IF e.completed /\ e.exc.type = "" /\ Len(tr.segs) = 0 /\ ~tr.cfg.api
           THEN /\ Report(End_C02(X), "L1", i, "C02.end")
                /\ Report(End_C04(X), "L1", i, "C04.end")
